@@ -11,6 +11,7 @@
 #include <sstream>
 #include <string>
 #include <unistd.h>
+#include <vector>
 
 #include "fillnew.hpp"
 #include "hexasm.hpp"
@@ -46,14 +47,38 @@ static Result assembleFile(const std::string &src, const std::string &outPath) {
 int main(int argc, char **argv) {
   std::string src, before, outPath = "asmtool.out.bin";
   int fill = -1;
+  bool det = false;
   for (int i = 1; i < argc; i++) {
     std::string a = argv[i];
     if (a == "--fill" && i + 1 < argc) fill = atoi(argv[++i]);
     else if (a == "--before" && i + 1 < argc) before = argv[++i];
+    else if (a == "--det") det = true;
     else if (a == "--out" && i + 1 < argc) outPath = argv[++i];
     else src = a;
   }
   if (src.empty()) { fprintf(stderr, "usage: asmtool SRC\n"); return 2; }
+  if (det) {
+    // determinism: fills 0x00, 0xA5, 0xFF, after assembling another source in the same process, and plain
+    std::vector<Result> runs;
+    int fills[3] = {0x00, 0xA5, 0xFF};
+    for (int f : fills) { fillnew::set(f); runs.push_back(assembleFile(src, outPath)); fillnew::set(-1); }
+    fillnew::set(0x5A);
+    if (!before.empty()) (void)assembleFile(before, outPath + ".before");
+    runs.push_back(assembleFile(src, outPath));
+    fillnew::set(-1);
+    runs.push_back(assembleFile(src, outPath));
+    bool same = true; std::string what;
+    for (size_t i = 1; i < runs.size() && same; i++) {
+      if (runs[i].ok != runs[0].ok) { same = false; what = "acceptance"; }
+      else if (runs[i].file != runs[0].file) { same = false; what = "binary"; }
+      else if (runs[i].listing != runs[0].listing) { same = false; what = "listing"; }
+      else if (runs[i].errWhat != runs[0].errWhat) { same = false; what = "diagnostic"; }
+    }
+    vjson::Obj o;
+    o.boolean("accepted", runs[0].ok); o.boolean("deterministic", same); o.str("what", what); o.num("binary_bytes", runs[0].file.size());
+    printf("%s\n", o.done().c_str());
+    return 0;
+  }
   fillnew::set(fill);
   if (!before.empty()) (void)assembleFile(before, outPath + ".before");
   Result r = assembleFile(src, outPath);
